@@ -3,6 +3,7 @@ package checks
 import (
 	"bytes"
 	"fmt"
+	"os"
 	"testing"
 
 	segment "github.com/blevesearch/scorch_segment_api/v2"
@@ -13,6 +14,7 @@ import (
 	"verifharness/gen"
 	"verifharness/indep"
 	"verifharness/spec"
+	"verifharness/stats"
 )
 
 // C04, targeted stage: section offsets on the varint-length boundaries of the
@@ -41,6 +43,14 @@ func genOffsetCase(t *rapid.T) offsetCase {
 		if f.DV {
 			dvFields = append(dvFields, f.Name)
 		}
+	}
+	if gen.Chance(t, "imageLength", 35) {
+		// Field "" = the length of the whole image (data + 52-byte footer) is placed instead: on and
+		// around the sizes of the write buffers in play (4 KiB bufio default, 64 KiB, the 1 MiB
+		// merge/persist buffer), with the footer straddling them
+		base := rapid.SampledFrom([]uint64{4096, 1 << 20, 65536, 8192}).Draw(t, "lenBase")
+		delta := rapid.SampledFrom([]int{1, 26, 51, 0, 52, -1, 53}).Draw(t, "lenDelta")
+		return offsetCase{Batch: b, ChunkMode: gen.ChunkMode(t, "cm"), Target: uint64(int(base) + delta), Field: ""}
 	}
 	return offsetCase{Batch: b, ChunkMode: gen.ChunkMode(t, "cm"),
 		Target: rapid.SampledFrom([]uint64{16383 + 16384, 16383, 16384, 16385, 32767 + 16384, 2097151, 32768}).Draw(t, "target"),
@@ -94,9 +104,10 @@ func runOffsetCase(c offsetCase) *Violation {
 	for iter := 0; iter < 8; iter++ {
 		batch = withPad(c.Batch, pad)
 		var s segment.Segment
+		var dataLen uint64
 		if err := drive.Safe(func() error {
 			var e error
-			s, _, e = drive.Build(batch, c.ChunkMode)
+			s, dataLen, e = drive.Build(batch, c.ChunkMode)
 			return e
 		}); err != nil {
 			return violation(prop, "build/error", "%v", err)
@@ -107,6 +118,14 @@ func runOffsetCase(c offsetCase) *Violation {
 			return violation(prop, "persist/error", "WriteTo: %v", err)
 		}
 		start, ok := dvStartOf(buf.Bytes(), c.Field)
+		if c.Field == "" {
+			// steered by the size the build reports, not by what WriteTo emitted
+			start, ok = dataLen+uint64(zap.FooterSize), true
+			if uint64(buf.Len()) != start {
+				s.Close()
+				return violation(prop, "writeto/length", "the build reports %d data bytes, WriteTo emitted %d bytes instead of data + %d footer bytes", dataLen, buf.Len(), zap.FooterSize)
+			}
+		}
 		if !ok {
 			s.Close()
 			offsetStats.notPlaced++
@@ -152,6 +171,9 @@ func runOffsetCase(c offsetCase) *Violation {
 	if v := checkFooter(prop, data, want.Count, effMode(c.ChunkMode)); v != nil {
 		return v
 	}
+	if fileData, err := os.ReadFile(path); err != nil || !bytes.Equal(fileData, data) {
+		return violation(prop, "persist-vs-writeto", "image of %d bytes: Persist wrote %d bytes (%v), WriteTo %d; they must be the same bytes", len(data), len(fileData), err, len(data))
+	}
 	var opened segment.Segment
 	if err := drive.Safe(func() error {
 		var e error
@@ -175,6 +197,9 @@ var c04offsets = Check[offsetCase]{
 	Property: "C04", Stage: "offset-boundaries",
 	Gen: genOffsetCase, Run: runOffsetCase,
 	Classify: func(c offsetCase) (bool, []string) {
+		if c.Field == "" {
+			return true, []string{fmt.Sprintf("image-length=%d", c.Target)}
+		}
 		return true, []string{fmt.Sprintf("target=%d", c.Target)}
 	},
 	Extra: func() map[string]any {
@@ -185,3 +210,24 @@ var c04offsets = Check[offsetCase]{
 func init() { c04offsets.register() }
 
 func TestC04Offsets(t *testing.T) { c04offsets.Rapid(t) }
+
+// Deterministic part: one fixed batch, its image length placed on every (buffer size, delta)
+// combination, so that each run covers the footer straddling each buffer size.
+func TestC04Lengths(t *testing.T) {
+	col := stats.New("C04", "offset-boundaries")
+	defer col.Write()
+	b := &spec.BatchSpec{}
+	for i := 0; i < 3; i++ {
+		b.Docs = append(b.Docs, spec.DocSpec{ID: spec.B(fmt.Sprintf("L%d", i)), Fields: []spec.FieldSpec{{Name: "f", Type: 't', Stored: true, DV: true, Value: []byte("v"), Len: 2,
+			Tokens: []spec.TokenSpec{{Term: "x", Freq: 1, Locs: []spec.LocSpec{{Pos: 1, Start: 0, End: 1}}}, {Term: spec.B(fmt.Sprintf("y%d", i)), Freq: 1}}}}})
+	}
+	before := offsetStats.placed
+	for _, base := range []int{4096, 65536, 1 << 20} {
+		for _, delta := range []int{1, 26, 51, 52, 0, -1} {
+			c := offsetCase{Batch: b, ChunkMode: 0, Target: uint64(base + delta), Field: ""}
+			col.CaseHash(stats.HashJSON([]int{base, delta}), true, []string{"image-length-fixed"}, func() any { return map[string]int{"imageLength": base + delta} })
+			reportBig(t, col, "C04", "offset-boundaries", c, safeRun(c04offsets, c))
+		}
+	}
+	col.SetExtra("fixed_image_lengths_placed_exactly", offsetStats.placed-before)
+}
